@@ -186,6 +186,20 @@ CLAIMED = {
              '(strict pattern with all bindings absent vs "/") is a documented spec decision.',
         technique='contract-based: RegLan lemmas on constants extracted from the real module + per-shape language '
                   'equivalence proofs (z3), K contract on match_path', design_ref='DESIGN.md 7 C05'),
+    'C02': dict(
+        text='K: sinter.inject (exactly one call of f, by keyword only; keys = (offered or defaulted) and declared; each '
+             'value is the injectable when offered, else the own default), BoundRoute.execute / execute_error (one inject '
+             'call on the compiled chain / error renderer with caller keywords over route resources over the built-ins), '
+             'Application.dispatch via at-call obligations on every execute / execute_error / uncaught_to_response / '
+             'default_render_error call (keys and values of the mapping: URL bindings of THIS route for THIS path, this '
+             'request, this application, this dispatch state, the application\'s resource objects by identity); '
+             'L: the three postconditions compose to the statement (10 lemmas + a cover obligation); T: the instantiated '
+             'process_request template passes a=a to endpoint, b=b and context=<endpoint result> to render. '
+             'Bounded stand-in (labelled bounded): every keyword of the real generated chain text is name=name.',
+        note='WF (C04) is a hypothesis of the lemmas; Python lexical scoping of the generated nested defs is assumed '
+             '(A-exec); middleware-provided values are covered by the text stand-in + scoping, not by a K contract.',
+        technique='contract-based: pyvc VCs over the real AST discharged by z3 (K, at-call K, L, T); bounded enumeration '
+                  'for the generated text', design_ref='DESIGN.md 7 C02'),
 }
 
 REASONS = {}
